@@ -8,6 +8,8 @@ pub struct Block { pub id: int, pub symbols: SymbolTable }
 impl Block { #[verifier::external_body] pub fn start(&self) -> u32 { 0 } #[verifier::external_body] pub fn end(&self) -> u32 { 0 } }
 pub struct Catch { pub id: int, pub name: Token, pub class: Option<Token>, pub block: Block, pub symbols: SymbolTable }
 impl Catch { #[verifier::external_body] pub fn start(&self) -> u32 { 0 } #[verifier::external_body] pub fn end(&self) -> u32 { 0 } }
+pub struct Import { pub id: int } pub struct ForS { pub id: int } pub struct Launch { pub id: int } pub struct Raise { pub id: int }
+pub enum Stmt { Expr(Expr), ImplicitReturn(Expr), Import(Import), For(ForS), If(If), Return(Return), Launch(Launch), Break(Token), Continue(Token), While(While), Try(Try), Raise(Raise) }
 pub struct Binary { pub op: BinaryOp, pub lhs: Expr, pub rhs: Expr }
 pub struct Unary { pub op: UnaryOp, pub expr: Expr }
 pub struct Ternary { pub cond: Expr, pub then: Expr, pub else_: Expr }
